@@ -532,6 +532,30 @@ func crashJobs(w *world) []job {
 	mc := &mixedCase{name: "mixed-cp-no-payouts", tags: []string{"kind:honest+byzantine", "byz:checkpoint-without-payouts", "regime:v2-checkpoint"},
 		w: w, victim: main.Blocks[:vs], honest: main.Blocks, byz: []byzSpec{{"checkpoint-without-payouts", func() *netx.View { return netx.ViewOf(main) }, noPayouts}}}
 	jobs = append(jobs, job{name: mc.name, quick: true, run: mc.run})
+	// SendHeaders answers whose two peer-controlled parts do not fit together: no headers but a
+	// positive (or enormous) number of remaining ones, a few headers with an enormous remainder. The
+	// sync loop has no recover: whatever it indexes must be guarded by what it has tested.
+	for _, x := range []struct {
+		kind string
+		vs   int
+		mut  func(a *hAns)
+	}{
+		{"empty-remaining-positive", 4, func(a *hAns) { a.headers = nil; a.remaining = 7 }},
+		{"empty-remaining-positive", vs, func(a *hAns) { a.headers = nil; a.remaining = 1 }},
+		{"empty-remaining-huge", 4, func(a *hAns) { a.headers = nil; a.remaining = ^uint64(0) }},
+		{"few-remaining-huge", vs, func(a *hAns) { a.headers = a.headers[:3]; a.remaining = ^uint64(0) }},
+		{"all-remaining-huge", 4, func(a *hAns) { a.remaining = ^uint64(0) - 5 }},
+	} {
+		x := x
+		rc := &roundCase{name: fmt.Sprintf("hdr-%s-from-%d", x.kind, x.vs), tags: []string{"rpc:SendHeaders", "corrupt:" + x.kind, regime(w, x.vs)},
+			w: w, victim: main.Blocks[:x.vs], view: netx.ViewOf(main), tie: true,
+			sc: script{mutH: func(ord int, a *hAns) {
+				if ord == 0 && !a.fail {
+					x.mut(a)
+				}
+			}}}
+		jobs = append(jobs, job{name: rc.name, quick: true, run: rc.run})
+	}
 	// a checkpoint block, at the require height, that carries a v1 transaction. Its ID and commitment
 	// are right (the peer mined it that way) and ValidateOrphan only weighs v1 transactions, but
 	// consensus.ApplyBlock indexes the (empty, after the hardfork mandatory) v1 supplement per v1
